@@ -13,7 +13,7 @@ exception class - is the same for all orders.
 import itertools
 import random
 
-from sim import core, seams
+from sim import core, seams, synth
 
 ID = 'C06'
 LEVEL = 'fault_enumeration'
@@ -560,7 +560,7 @@ def stdlib_targets():
             c = ctx
             depth = 0
             while c is not None:
-                funcs = getattr(c, '_functions', None)
+                funcs = synth.layer_functions(c)
                 if funcs:
                     for name in sorted(funcs):
                         if len(funcs[name]) >= 2:
@@ -651,7 +651,7 @@ def execute_stdlib(case, stats):
     wrapped = []
     c = ctx
     while c is not None:
-        for fd in getattr(c, '_functions', {}).get(name, ()):
+        for fd in list(synth.layer_functions(c).get(name, ())):
             orig = fd.payload
 
             def mk(orig, key):
